@@ -8,6 +8,7 @@ import time
 import traceback
 from typing import Any, Dict, List, Optional, Sequence
 
+import ahbicht.content_evaluation  # noqa: F401  (first import: avoids a circular import inside ahbicht)
 from pyvc.contracts import LEMMAS, REGISTRY
 from pyvc.replay import replay_obligation
 from pyvc.vc import Obl, Verifier
